@@ -12,4 +12,3 @@ func (s *session) execDT(op string, a []string) string { return "bad:dt-not-buil
 func schedMain(a []string) { fmt.Fprintln(os.Stderr, "not built"); os.Exit(2) }
 func raceMain(a []string)  { fmt.Fprintln(os.Stderr, "not built"); os.Exit(2) }
 func lockMain(a []string)  { fmt.Fprintln(os.Stderr, "not built"); os.Exit(2) }
-func indexMain(a []string) { fmt.Fprintln(os.Stderr, "not built"); os.Exit(2) }
